@@ -529,6 +529,39 @@ def combinator_programs():
         F([S("expr"), [S("list"), S("%1")]], 1, 2), F([S("expr"), []]), [S("expr")], [S("expr"), 1, 2], [S("map"), Q(S("list")), [S("expr"), [S("*"), S("%"), S("%")]], Q([2, 3])],
         [S("let"), [[S("%1"), 50]], F([S("expr"), [S("list"), S("%1"), S("%2")]], 1, 2)], F([S("expr"), [S("list"), S("%3"), S("%1")]], 1, 2, 3),
     ]
+    # functions applied to VALUES by a builtin: the elements of a sequence (their keys), the data of an error.  The values
+    # are lists and symbols that would mean something if they were evaluated again
+    CMP = L([S("a"), S("b")], [S("probe"), Q(S("cmp")), S("a"), S("b")], [S("<"), S("a"), S("b")])
+    CARLT = L([S("x"), S("y")], [S("probe"), Q(S("cmp")), S("x"), S("y")], [S("<"), [S("car"), S("x")], [S("car"), S("y")]])
+    KEY = L([S("e")], [S("probe"), Q(S("key")), S("e")], [S("car"), S("e")])
+    forms += [
+        [S("stable-sort"), S("<"), [S("list"), 3, 1, 2]], [S("stable-sort"), CMP, [S("list"), 3, 1, 2, 5, 4]], [S("stable-sort"), CMP, [S("vector"), 2, 2, 1]],
+        [S("stable-sort"), CMP, Q([4, 3, 2, 1])], [S("stable-sort"), S("<"), [S("list"), [S("list"), 3], [S("list"), 1], [S("list"), 2]], S("car")],
+        [S("stable-sort"), CMP, [S("list"), [S("list"), 3, 0], [S("list"), 1, 1], [S("list"), 3, 2], [S("list"), 1, 3]], KEY],
+        [S("stable-sort"), CARLT, Q([[3, 1], [2, 4]])], [S("stable-sort"), CARLT, Q([[3, S("x")], [1, S("y")], [3, S("z")], [1, S("w")]])],
+        [S("stable-sort"), L([S("x"), S("y")], [S("probe"), Q(S("cmp")), S("x"), S("y")], S("true")), Q([S("b"), S("a"), S("c")])],
+        [S("stable-sort"), L([S("x"), S("y")], [S("symbol="), S("x"), Q(S("a"))]), Q([S("b"), S("a"), S("c"), S("a")])],
+        [S("stable-sort"), L([S("a"), S("b")], [S("probe"), Q(S("cmp")), S("a"), S("b")], [S("if"), [S("="), S("a"), 2], [S("car"), 5], [S("<"), S("a"), S("b")]]), [S("list"), 3, 1, 2, 0]],
+        [S("stable-sort"), S("<"), [S("list"), 3, 1, 2], Q(S("nosuch"))], [S("stable-sort"), Q(S("nosuch")), [S("list"), 1]], [S("stable-sort"), S("<"), 5], [S("stable-sort"), S("<"), [S("list"), 2, 1], S("car"), S("car")],
+        [S("stable-sort"), 5, [S("list"), 2, 1]], [S("stable-sort"), S("<"), []], [S("stable-sort"), CMP, [S("list"), 1]], [S("stable-sort"), S("<"), [S("list"), 2, STR("x"), 1]],
+        [S("stable-sort"), S("<"), [S("list"), [S("list"), 3], [S("list"), 1]], L([S("e")], [S("probe"), Q(S("key")), S("e")], [S("if"), [S("="), [S("car"), S("e")], 1], [S("car"), 7], [S("car"), S("e")]])],
+        [S("all?"), S("symbol?"), Q([S("a"), S("b")])], [S("any?"), S("list?"), Q([[S("+"), 1, 2]])], [S("all?"), L([S("x")], [S("probe"), Q(S("p")), S("x")], [S("int?"), S("x")]), Q([1, 2, S("a"), 3])],
+        [S("any?"), L([S("x")], [S("probe"), Q(S("p")), S("x")], [S("symbol?"), S("x")]), Q([1, [S("inc"), 5], S("unbound-data"), 3])], [S("all?"), S("quote"), Q([S("a"), S("b")])],
+        [S("any?"), S("inc"), Q([[S("car"), 5]])], [S("all?"), S("int?"), [S("list"), 1, [S("inc"), 1]]], [S("any?"), Q(S("nosuch")), Q([1])], [S("all?"), S("int?"), 5],
+        [S("handler-bind"), [[S("c"), L([S("c"), S("x")], [S("list"), Q(S("got")), S("x")])]], [S("error"), Q(S("c")), [S("car"), Q([[S("+"), 1, 2]])]]],
+        [S("handler-bind"), [[S("c"), L([S("c"), S("x")], [S("list"), Q(S("got")), S("x")])]], [S("error"), Q(S("c")), [S("car"), Q([S("unbound-data")])]]],
+        [S("handler-bind"), [[S("c"), L([S("c"), S("&rest"), S("r")], [S("list"), S("c"), S("r")])]], [S("error"), Q(S("c")), [S("car"), Q([[S("inc"), 1]])], Q(S("q")), [S("list"), Q(S("inc")), 2]]],
+        [S("handler-bind"), [[S("condition"), S("list")]], [S("error"), Q(S("c")), [S("car"), Q([[S("inc"), 1]])]]],
+        [S("insert-sorted"), Q(S("list")), Q([1, 3, 5]), S("<"), 4], [S("insert-sorted"), Q(S("vector")), [S("vector"), 1, 3, 5, 7, 9], CMP, 6], [S("insert-sorted"), Q(S("list")), [], CMP, 6],
+        [S("insert-sorted"), Q(S("list")), Q([[1], [3]]), CARLT, Q([2])], [S("insert-sorted"), Q(S("list")), Q([[1, S("a")], [3, S("b")]]), CMP, Q([2, S("c")]), KEY],
+        [S("insert-sorted"), Q(S("set")), Q([1, 3]), CMP, 2], [S("insert-sorted"), Q(S("list")), [S("list"), 1, 3], Q(S("<")), 2], [S("insert-sorted"), 5, [S("list"), 1], S("<"), 2],
+        [S("insert-sorted"), Q(S("list")), 5, S("<"), 2], [S("insert-sorted"), Q(S("list")), [S("list"), 1, 2, 3, 4], L([S("a"), S("b")], [S("probe"), Q(S("cmp")), S("a"), S("b")], [S("if"), [S("="), S("b"), 3], [S("car"), 5], [S("<"), S("a"), S("b")]]), 9],
+        [S("insert-sorted"), Q(S("list")), [S("list"), 1, 3], S("<"), 2, Q(S("nosuch"))], [S("insert-sorted"), Q(S("list")), [S("list"), 1, 3], S("<"), 2, S("identity"), S("identity")],
+        [S("insert-sorted"), Q(S("list")), Q([S("a"), S("c")]), L([S("x"), S("y")], [S("probe"), Q(S("cmp")), S("x"), S("y")], [S("symbol="), S("x"), S("y")]), Q(S("b"))],
+        [S("search-sorted"), 10, L([S("i")], [S("probe"), Q(S("i")), S("i")], [S(">="), S("i"), 7])], [S("search-sorted"), 0, L([S("i")], [S("probe"), Q(S("i")), S("i")], S("true"))],
+        [S("search-sorted"), -3, S("inc")], [S("search-sorted"), 5, L([S("i")], [S("probe"), Q(S("i")), S("i")], [S("if"), [S("="), S("i"), 3], [S("car"), 5], []])], [S("search-sorted"), STR("x"), S("inc")],
+        [S("search-sorted"), 4, Q(S("nosuch"))], [S("search-sorted"), 6, Q(S("inc"))], [S("search-sorted"), 3, 5],
+    ]
     H = [S("lambda"), [S("c"), S("&rest"), S("r")], [S("list"), Q(S("caught")), S("c")]]
     out = []
     for f in forms:
@@ -610,6 +643,17 @@ def _run(V, work, tier):
         elif want[0] == "float-any" and v["t"] != "float":
             V.add(None, "leaf law: %s gives %s, a float (infinity or NaN) was expected" % (src, json.dumps(v)), {"src": src})
     V.coverage["arithmetic_leaf_cases"] = len(ac)
+    # ---- threading operators: Machine.tla follows the code (each intermediate VALUE is spliced into the next step as an
+    # expression); the reference meaning is the nested form, and the two differ exactly when a value is an unquoted list
+    # or symbol.  Decided here against the nested form written out.
+    TH = [("(thread-first '((+ 1 2)) (car) (list))", "(list (car '((+ 1 2))))"), ("(thread-last '(b c) (car) (list 1))", "(list 1 (car '(b c)))"),
+          ("(thread-first '(1 2) (cdr) (car))", "(car (cdr '(1 2)))"), ("(thread-last 5 (list 1) (car))", "(car (list 1 5))")]
+    tres = driver_json(binary, ["run"], [{"id": i, "seq": [a, b], "cfg": {"nostdlib": True}} for i, (a, b) in enumerate(TH)])
+    for r in tres:
+        a, b = TH[r["id"]]
+        ea, eb = r["runs"][0]["evals"]
+        if json.dumps(ea["v"], sort_keys=True) != json.dumps(eb["v"], sort_keys=True):
+            V.add("thread-reeval", "%s gives %s, the nested form %s gives %s" % (a, json.dumps(ea["v"])[:120], b, json.dumps(eb["v"])[:120]), {"src": a, "nested": b})
     V.coverage["exhaustive"] = False
     V.coverage["explanation"] = "scope family: all 343 nestings of 3 binders x sampled mutation/capture patterns; binding family: every formal list of <= 3 names x 0..4 arguments x 3 call paths (exhaustive); %d seeded typed random programs" % cnt.get("random", 0)
     return V.finish()
